@@ -90,8 +90,8 @@ func Classify(err error) (class, msg string) {
 	return EndOther, msg
 }
 
-// topEvyFrame extracts the first stack frame inside evylang.dev/evy/pkg.
-func topEvyFrame() string {
+// TopEvyFrame extracts the first stack frame inside evylang.dev/evy/pkg.
+func TopEvyFrame() string {
 	pcs := make([]uintptr, 64)
 	n := runtime.Callers(0, pcs)
 	frames := runtime.CallersFrames(pcs[:n])
@@ -151,7 +151,7 @@ func ParseProgram(src string, res *Result) (prog *parser.Program) {
 			res.EndClass = EndParserCrash
 			res.ParseErr = fmt.Sprint(p)
 			res.EndMsg = res.ParseErr
-			res.TopFrame = topEvyFrame()
+			res.TopFrame = TopEvyFrame()
 			prog = nil
 		}
 	}()
@@ -273,7 +273,7 @@ func guarded(res *Result, f func() error) (err error, hostPanic bool) {
 			res.EndClass = EndHostPanic
 			res.HostPanic = fmt.Sprint(p)
 			res.EndMsg = res.HostPanic
-			res.TopFrame = topEvyFrame()
+			res.TopFrame = TopEvyFrame()
 			hostPanic = true
 		}
 	}()
